@@ -132,6 +132,31 @@ Definition fwd_cell (ap : approval) (au : list entry) (tok user F : addr) (fee m
 Definition transfer_bal (tok from to : addr) (amt : Z) (t h : addr) (x y : Z) : bool :=
   y =? x + (if N.eqb t tok then (if N.eqb h to then amt else 0) - (if N.eqb h from then amt else 0) else 0).
 
+(* what the harness target logs for a call: a re-entering function also logs the result of the call
+   it made into the fee token / the forwarder, and that result must be 0 (refused and rolled back) *)
+Definition expected_entry (fn : N) (args : list atom) : logent :=
+  if is_script fn then (fn, args ++ [AI 0]) else (fn, args).
+
+(* well-formedness of a call (a boolean the harness inputs satisfy): when the forwarded target
+   function re-enters a fee token, NOBODY among the signers of this call authorised that inner
+   call (and its principal is not the target itself) - the inner call is "on behalf of nobody" *)
+Definition wf_call (c : cfg) (cl : call) : bool :=
+  match cl with
+  | Forward k tok fee max exp target fn args user relayer au =>
+      match args with
+      | [AA tk; AA spender; AA from; AA to; AI amt; AI sw] =>
+          negb (N.eqb fn F_PULL)
+          || (negb (N.eqb target spender)
+              && negb (has_sub_or_root au spender (mkf tk F_TRANSFER_FROM [VA spender; VA from; VA to; VI amt])))
+      | [AA tk; AA owner; AA spender; AI amt; AI exp'; AI sw] =>
+          negb (N.eqb fn F_APPROVE_FOR)
+          || (negb (N.eqb target owner)
+              && negb (has_sub_or_root au owner (mkf tk F_APPROVE (approve_args owner spender amt exp'))))
+      | _ => true
+      end
+  | _ => true
+  end.
+
 Definition mon_forward (c : cfg) (prev cur : obs) (k : kind) (tok : addr) (fee max exp : Z)
   (target : addr) (fn : N) (args : list atom) (user relayer : addr) (au : list entry) (ret : Z) : bool :=
   let F := fwd_addr c k in
@@ -154,10 +179,11 @@ Definition mon_forward (c : cfg) (prev cur : obs) (k : kind) (tok : addr) (fee m
      allowance changes as the approval strategy says (and a fresh approval is authorised) *)
   && toks_rel c same_total (transfer_bal tok user recipient fee)
        (fwd_cell (approval_of k) au tok user F fee max exp) prev cur
-  (* exactly that target call, once *)
+  (* exactly that target call, once - and whatever the target tried on the fee token from inside
+     was refused (the balances / allowances above already leave no room for an extra debit) *)
   && memb target (c_targets c)
   && logs_rel c (fun g x y => if N.eqb g target
-                              then list_eqb logent_eqb y (x ++ [(fn, args)]) && (ret =? Z.of_nat (length y))
+                              then list_eqb logent_eqb y (x ++ [expected_entry fn args]) && (ret =? Z.of_nat (length y))
                               else list_eqb logent_eqb x y) prev cur
   && (o_now cur =? o_now prev) && al_obs_eqb prev cur.
 
